@@ -1218,7 +1218,7 @@ func condOp(lhs, rhs V, op ast.Op) (any, ast.DType, error) {
 			if dtype == ast.Float {
 				return cast.ToFloat64(lhs.V) == cast.ToFloat64(rhs.V), ast.Bool, nil
 			}
-			return cast.ToFloat64(lhs.V) == cast.ToFloat64(rhs.V), ast.Bool, nil
+			return cast.ToInt64(lhs.V) == cast.ToInt64(rhs.V), ast.Bool, nil
 		case ast.String:
 			if rhs.T != ast.String {
 				return false, ast.Bool, nil
@@ -1245,7 +1245,7 @@ func condOp(lhs, rhs V, op ast.Op) (any, ast.DType, error) {
 			if dtype == ast.Float {
 				return cast.ToFloat64(lhs.V) != cast.ToFloat64(rhs.V), ast.Bool, nil
 			}
-			return cast.ToFloat64(lhs.V) != cast.ToFloat64(rhs.V), ast.Bool, nil
+			return cast.ToInt64(lhs.V) != cast.ToInt64(rhs.V), ast.Bool, nil
 		case ast.String:
 			if rhs.T != ast.String {
 				return true, ast.Bool, nil
